@@ -1709,9 +1709,17 @@ pub fn gen_len(rng: &mut Rng, max_len: usize) -> usize {
 
 pub fn gen_args(c: Ctor, rng: &mut Rng, k: &GenKnobs) -> (Vec<u64>, Vec<Vec<u8>>) {
     let mut m = 0u64;
+    // one call in sixteen draws (most of) its scalars from the domain
+    // dictionary, so that *combinations* of meaningful values occur
+    // (80 × 25, entry size 40 with index 0xFFFF, equal bounds, …)
+    let dict_mode = rng.chance(1, 16);
     let mut sc = |rng: &mut Rng, bits: u32| {
         m += 1;
-        rng.scalar(bits, m)
+        if dict_mode && rng.chance(3, 4) {
+            rng.dict(bits)
+        } else {
+            rng.scalar(bits, m)
+        }
     };
     let violate = rng.below(64) < k.precondition_rate;
     match c {
@@ -1741,7 +1749,31 @@ pub fn gen_args(c: Ctor, rng: &mut Rng, k: &GenKnobs) -> (Vec<u64>, Vec<Vec<u8>>
         Ctor::Mmap => {
             let n = gen_len(rng, k.max_len / 24).min(3000);
             let mut b = Vec::with_capacity(n * 20);
+            // real memory maps are sorted and mostly contiguous, with runs of
+            // equal type: one map in four is generated that way
+            let realistic = rng.chance(1, 4);
+            let mut next_base = if rng.chance(1, 2) { 0 } else { sc(rng, 32) };
+            let mut run_type = rng.range(1, 5);
             for _ in 0..n {
+                if realistic {
+                    let len = match rng.below(4) {
+                        0 => 0x1000,
+                        1 => rng.range(1, 64) * 0x1000,
+                        2 => rng.range(1, 0x9FC00),
+                        _ => 0,
+                    };
+                    if rng.chance(1, 3) {
+                        run_type = rng.range(1, 5);
+                    }
+                    if rng.chance(1, 8) {
+                        next_base += rng.range(1, 0x10000); // a hole
+                    }
+                    b.extend_from_slice(&next_base.to_le_bytes());
+                    b.extend_from_slice(&len.to_le_bytes());
+                    b.extend_from_slice(&(run_type as u32).to_le_bytes());
+                    next_base = next_base.wrapping_add(len);
+                    continue;
+                }
                 b.extend_from_slice(&sc(rng, 64).to_le_bytes());
                 b.extend_from_slice(&sc(rng, 64).to_le_bytes());
                 let t = if rng.chance(1, 2) { rng.range(0, 6) } else { sc(rng, 32) };
@@ -1796,7 +1828,34 @@ pub fn gen_args(c: Ctor, rng: &mut Rng, k: &GenKnobs) -> (Vec<u64>, Vec<Vec<u8>>
         Ctor::Efi64 | Ctor::Efi64Ih => (vec![sc(rng, 64)], vec![]),
         Ctor::Smbios => {
             let l = gen_len(rng, k.max_len);
-            (vec![sc(rng, 8), sc(rng, 8)], vec![rng.bytes(l)])
+            let mut tables = rng.bytes(l);
+            if rng.chance(1, 8) {
+                // a well-formed SMBIOS entry point (anchor, length, version,
+                // checksum 0) in front: what real firmware hands over
+                let mut ep: Vec<u8> = if rng.chance(1, 2) {
+                    let mut e = b"_SM_".to_vec();
+                    e.extend_from_slice(&[0, 0x1f, rng.below(4) as u8, rng.below(9) as u8]);
+                    e.extend_from_slice(&rng.bytes(8));
+                    e.extend_from_slice(b"_DMI_");
+                    e.extend_from_slice(&rng.bytes(10));
+                    e
+                } else {
+                    let mut e = b"_SM3_".to_vec();
+                    e.extend_from_slice(&[0, 0x18, 3, rng.below(8) as u8]);
+                    e.extend_from_slice(&rng.bytes(15));
+                    e
+                };
+                let sum = ep.iter().fold(0u8, |a, b| a.wrapping_add(*b));
+                ep[4] = 0u8.wrapping_sub(sum); // checksum byte follows the anchor
+                if ep.starts_with(b"_SM3_") {
+                    ep[4] = b'_';
+                    let sum = ep.iter().fold(0u8, |a, b| a.wrapping_add(*b));
+                    ep[5] = ep[5].wrapping_sub(sum);
+                }
+                ep.extend_from_slice(&tables);
+                tables = ep;
+            }
+            (vec![sc(rng, 8), sc(rng, 8)], vec![tables])
         }
         Ctor::RsdpV1 => {
             let oem = match rng.below(6) {
